@@ -1104,7 +1104,7 @@ func (m *model) observeSyncs(snap *scheduler.VerifSnapshot, now time.Time) {
 				case pw != nil && pw.Blocked:
 					m.fairCheckHandOff(wk, vw.CurrentTask, now)
 				case (pw == nil || pw.CurrentTask == nil) && res.step == w.stepNo:
-					m.fairCheckPick(wk, vw.CurrentTask, now)
+					m.fairCheckPick(wk, vw.CurrentTask, now, vw.StickinessStart)
 				default:
 					// Completion and pick in one call: not validated;
 					// take the stickiness state from the scheduler.
